@@ -143,7 +143,7 @@ PROPS["C13"] = dict(
 )
 PROPS["C14"] = dict(
     title="Float write options control digits and notation",
-    verus_quick=[_vc("wf_round")],
+    verus_quick=[_vc("wf_round"), _vc("wf_bintrunc")],
     level_text="Verus proves, on the extracted real code and for digit strings of ANY length, that truncate_and_round_decimal "
                "leaves exactly the digit string rounded to max_significant_digits - half-to-even under Round, toward zero under "
                "Truncate, with the carry case reported - and that round_up is 'digit string + 1'. The decimal emit functions (scientific / positive / negative exponent) and the shared rounding helpers are "
